@@ -27,7 +27,7 @@ func init() {
 			{ID: "C03.4", Desc: "one key function for lookup, store and invalidation", Run: func(c *Ctx) { ruleOneKeyer(c, "C03.4") }, MinSites: 2},
 			{ID: "C03.5", Desc: "default ports", Run: ruleC03_5, MinSites: 2},
 			{ID: "C03.6", Desc: "upper-case hex alphabet", Run: ruleC03_6, MinSites: 1},
-			{ID: "C03.7", Desc: "an IP-literal host keeps (or regains) its brackets before ':port' is appended", Run: ruleC03_7, MinSites: 1},
+			{ID: "C03.7", Desc: "an IP-literal host keeps (or regains) its brackets before ':port' is appended", Run: func(c *Ctx) { ruleC03_7(c); ruleC03_7b(c) }, MinSites: 1},
 		},
 	})
 }
@@ -147,6 +147,16 @@ func ruleC03_2(c *Ctx) {
 		if at, ok := methods[m]; ok && m != "RequestURI" {
 			bad = append(bad, "calls URL."+m+"() at "+at)
 		}
+	}
+	// lossy views of the URL: the decoded Path (`%3F`, `%25`, `%23` lose their escaping: /doc%3Fv=2 becomes /doc?v=2)
+	var lossy []string
+	if at, ok := fields["Path"]; ok {
+		lossy = append(lossy, "reads the decoded URL.Path at "+at)
+	}
+	if len(lossy) > 0 {
+		c.Fail("C03.2", "key-from-escaped-forms", "the key is built from the escaped path (EscapedPath / RawPath), never from the decoded Path", strings.Join(lossy, "; ")+": `/doc%3Fv=2` (no query) and `/doc?v=2` get one key, as do `/%2541` and `/A`", ex...)
+	} else {
+		c.Pass("C03.2", "key-from-escaped-forms", "the key is built from the escaped path (EscapedPath / RawPath), never from the decoded Path", ex...)
 	}
 	if len(bad) > 0 {
 		c.Fail("C03.2", "key-ignores-fragment", "the key function never reads the fragment", strings.Join(bad, "; ")+": every `#anchor` becomes a different key", ex...)
@@ -613,6 +623,84 @@ func ruleC03_7(c *Ctx) {
 		c.Pass("C03.7", "authority-brackets", desc, append([]string{c.P.ShortName(uk) + ": stripped host is re-bracketed"}, sources...)...)
 	default:
 		c.Fail("C03.7", "authority-brackets", desc, c.P.ShortName(uk)+": the bracket-stripped host ("+sources[0]+") is joined with \":\"+port and never re-bracketed; http://[::1]:8080/ and http://[::1:8080]/ share one key", sources...)
+	}
+}
+
+// ruleC03_7b: apart from separating the port at the last ':' and taking an IP literal out of its brackets (put back,
+// C03.7), no byte of the authority is dropped on the way into the key: every slice of a string derived from URL.Host
+// in the key function's tree cuts at a position found by searching for ':' or at the constant bracket offsets.
+func ruleC03_7b(c *Ctx) {
+	if !c.Need("C03.7", "urlKey") {
+		return
+	}
+	uk := c.A.F("urlKey")
+	desc := "no part of the host is cut off on the way into the key (only the port is split off and brackets are re-added)"
+	fromHost := func(v ssa.Value) bool {
+		hit := false
+		c.P.TraceBack(v, TraceOpts{ThroughOps: true, ThroughExtern: true, NoHeapFields: true}, func(y ssa.Value, _ []int) bool {
+			if u, ok := y.(*ssa.UnOp); ok {
+				if fa, ok := u.X.(*ssa.FieldAddr); ok && ptrTo(fa.X.Type(), "net/url", "URL") && fieldName(fa.X.Type(), fa.Field) == "Host" {
+					hit = true
+				}
+			}
+			return !hit
+		})
+		return hit
+	}
+	okIndex := func(v ssa.Value) bool {
+		if v == nil {
+			return true
+		}
+		if _, isC := v.(*ssa.Const); isC {
+			return true
+		}
+		good := false
+		bad := false
+		c.P.TraceBack(v, TraceOpts{ThroughOps: true, NoParams: true, NoHeapFields: true}, func(y ssa.Value, _ []int) bool {
+			call, ok := y.(*ssa.Call)
+			if !ok {
+				return true
+			}
+			if b, isB := call.Call.Value.(*ssa.Builtin); isB && b.Name() == "len" {
+				good = true
+				return false
+			}
+			for _, name := range []string{"LastIndexByte", "IndexByte", "LastIndex", "Index", "IndexRune"} {
+				if callIsPkgFunc(&call.Call, "strings", name) && len(call.Call.Args) == 2 {
+					if isByteConst(call.Call.Args[1], ':') {
+						good = true
+					} else if s, ok := constStr(call.Call.Args[1]); ok && s == ":" {
+						good = true
+					} else {
+						bad = true
+					}
+					return false
+				}
+			}
+			return true
+		})
+		return good && !bad
+	}
+	n := 0
+	var badSites []string
+	for _, g := range c.reachableFrom(uk) {
+		instrsOf(g, func(in ssa.Instruction) {
+			sl, ok := in.(*ssa.Slice)
+			if !ok || !isStringType(sl.X.Type()) || !fromHost(sl.X) {
+				return
+			}
+			n++
+			if !okIndex(sl.Low) || !okIndex(sl.High) {
+				badSites = append(badSites, c.P.InstrPos(sl)+" `"+sl.String()+"`")
+			}
+		})
+	}
+	sort.Strings(badSites)
+	switch {
+	case len(badSites) > 0:
+		c.Fail("C03.7", "authority-bytes-kept", desc, strings.Join(badSites, "; ")+": the host is cut at a position that is neither the port separator nor a bracket offset; e.g. dropping an IPv6 zone makes http://[fe80::1%25lan0]/ and http://[fe80::1%25lan1]/ (different machines) share an entry", badSites...)
+	default:
+		c.Pass("C03.7", "authority-bytes-kept", desc, fmt.Sprintf("%d slices of the host, all at ':' or bracket offsets", n))
 	}
 }
 
